@@ -120,6 +120,7 @@ def parse_trace(script_path, impl_path):
     results = {}
     checks = {}
     govs = {}
+    qres = {}
     digests = []
     cur = None
     marks = []
@@ -136,6 +137,8 @@ def parse_trace(script_path, impl_path):
                 results[t[1]] = (t[2], dict(x.split("=", 1) for x in t[3:] if "=" in x))
             elif t[0] == "C":
                 checks[t[1]] = t[2]
+            elif t[0] == "Q":
+                qres[t[1]] = (t[2], t[3:])
             elif t[0] == "RG":
                 govs[t[1]] = t[2]
             elif t[0] in ("B", "E"):
@@ -148,10 +151,17 @@ def parse_trace(script_path, impl_path):
     blk = None
     mi = 0
     pending_checks = []
+    tr.queries = []     # dicts: n, kind, args, result (ok|err), toks, gap (index of the digest in force)
+    ncommit = 0
     for l in sl:
         t = l.split()
         if not t:
             continue
+        if t[0] == "QUERY" and len(t) >= 3:
+            res, toks = qres.get(t[1], ("?", []))
+            tr.queries.append({"n": t[1], "kind": t[2], "args": t[3:], "result": res, "toks": toks, "gap": ncommit})
+        if t[0] in ("COMMIT", "EXPORTIMPORT", "CRASH"):
+            ncommit += 1 if t[0] == "COMMIT" else 0
         if t[0] == "BEGIN":
             blk = {"time": int(t[1]) * 10**9 + int(t[2]), "txs": [], "checks": pending_checks, "govs": [], "digest": None, "begin": None, "end": None}
             pending_checks = []
@@ -612,6 +622,8 @@ def o_c13(tr):
             if tx["result"] != "ok":
                 continue
             signed = set(tx["hdr"].get("signers", "").split(","))
+            if tx["hdr"].get("sig", "ok") != "ok":
+                yield {"oracle": "signature-verified", "signature": tx["hdr"].get("sig"), "detail": "tx %s executed with an invalid signature (%s)" % (tx["n"], tx["hdr"].get("sig"))}
             for m in split_msgs(tx["body"]):
                 try:
                     (k, args, subs), _ = parse_msg(m, 0)
@@ -639,6 +651,111 @@ def o_c13(tr):
                 yield {"oracle": "entitled", "signature": "params-authority", "detail": " ".join(gv["body"][:3])}
 
 
+def kvtoks(toks):
+    return dict(x.split("=", 1) for x in toks if "=" in x)
+
+
+def digest_at(tr, gap):
+    ds = [tr.genesis] + [b["digest"] for b in tr.blocks]
+    return ds[gap] if gap < len(ds) else None
+
+
+def walks(tr):
+    """complete key-based paging walks: consecutive QUERY lines of one kind and filter, the first without key and offset,
+    each next one carrying the previous answer's next key, the last answering next=-"""
+    out = []; cur = None
+    for q in tr.queries:
+        if q["result"] != "ok" or "items" not in kvtoks(q["toks"]):
+            cur = None; continue
+        a = kvtoks(q["args"]); r = kvtoks(q["toks"])
+        filt = tuple(x for x in q["args"] if not x.startswith(("key=", "off=", "lim=", "tot=", "rev=")))
+        sig = (q["kind"], filt, a.get("lim"), a.get("rev"), q["gap"])
+        items = [] if r["items"] == "-" else r["items"].split(",")
+        if a.get("key") == "-" and a.get("off") == "0":
+            cur = {"sig": sig, "items": list(items), "next": r.get("next"), "lim": a.get("lim"), "first": q["n"], "pm": int(r.get("pm", "0"))}
+        elif cur is not None and cur["sig"] == sig and a.get("key") == cur["next"] and a.get("off") == "0":
+            cur["items"] += items; cur["next"] = r.get("next"); cur["pm"] += int(r.get("pm", "0"))
+        else:
+            cur = None; continue
+        if cur["next"] == "-":
+            out.append(cur); cur = None
+    return out
+
+
+def o_c20(tr):
+    """list queries are complete, duplicate-free and consistent with point queries (judged against the digest of the same state)"""
+    for q in tr.queries:
+        r = kvtoks(q["toks"])
+        if q["result"] == "ok" and r.get("pm", "0") != "0":
+            yield {"oracle": "item=point-query", "signature": q["kind"], "detail": "QUERY %s: %s listed items differ from their point queries" % (q["n"], r["pm"])}
+    for w in walks(tr):
+        kind, filt, lim, rev, gap = w["sig"]
+        if lim in ("0",) or rev == "1" and False:
+            continue
+        d = digest_at(tr, gap)
+        if d is None:
+            continue
+        f = kvtoks(filt)
+        want = None
+        if kind == "ent.pos":
+            st = f.get("status", "-"); pu = f.get("purchaser", "-")
+            want = [str(i) for i in sorted(d.po) if (st in ("-", "0") or str(d.po[i]["status"]) == st) and (pu == "-" or addr_id(d.po[i]["purchaser"]) == addr_id(pu))]
+        elif kind in ("wrk.chains", "bcn.beacons"):
+            m = kind[:3]; mo = f.get("moniker", "-"); ow = f.get("owner", "-")
+            want = [str(i) for i in sorted(d.reg[m]) if (mo == "-" or d.reg[m][i]["moniker"] == mo) and (ow == "-" or d.reg[m][i]["owner"] == ow)]
+        elif kind == "str.streams":
+            want = sorted("%s/%s" % k for k in d.streams)
+        elif kind == "str.bysender" and filt:
+            want = sorted("%s/%s" % k for k in d.streams if k[1] == addr_id(filt[0]))
+        elif kind == "str.byreceiver" and filt:
+            want = sorted("%s/%s" % k for k in d.streams if k[0] == addr_id(filt[0]))
+        if want is None:
+            continue
+        got = w["items"]
+        if len(set(got)) != len(got):
+            yield {"oracle": "pages-partition", "signature": kind + "/duplicate", "detail": "walk from QUERY %s: %s" % (w["first"], got)}
+        elif sorted(got) != sorted(want) or (kind in ("ent.pos", "wrk.chains", "bcn.beacons") and got != (want if rev != "1" else want[::-1])):
+            yield {"oracle": "pages-partition", "signature": kind + "/incomplete-or-extra", "detail": "walk from QUERY %s lim=%s: got %s want %s" % (w["first"], lim, got[:12], want[:12])}
+
+
+def o_c17(tr):
+    """supply figures served by the enterprise queries = bank supply - locked eFUND for the enterprise denomination, unchanged otherwise"""
+    by_gap = {}
+    for q in tr.queries:
+        if q["result"] == "ok":
+            by_gap.setdefault(q["gap"], []).append(q)
+    for gap, qs in by_gap.items():
+        d = digest_at(tr, gap)
+        if d is None or not d.ent_params:
+            continue
+        dn = d.ent_params["denom"]; locked = d.total_locked[0] if d.total_locked[1] == dn else None
+        bank = dict(d.supply)
+        for q in qs:
+            if q["kind"] == "ent.supplyof" and q["toks"]:
+                a, den = coin(q["toks"][0])
+                want = bank.get(den, 0) - (locked if den == dn and locked is not None else 0)
+                if den == q["args"][0] and a != want:
+                    yield {"oracle": "supply-of", "signature": "native" if den == dn else "other", "detail": "QUERY %s: %s served %d, bank %d locked %s" % (q["n"], den, a, bank.get(den, 0), locked)}
+            if q["kind"] == "ent.totalunlocked" and q["toks"] and locked is not None:
+                a, den = coin(q["toks"][0])
+                if a != bank.get(dn, 0) - locked or a + locked != bank.get(dn, 0):
+                    yield {"oracle": "locked+unlocked=total", "signature": "totalunlocked", "detail": "QUERY %s: unlocked %d locked %d supply %d" % (q["n"], a, locked, bank.get(dn, 0))}
+            if q["kind"] == "ent.entsupply" and len(q["toks"]) == 4 and locked is not None:
+                den, lk, am, tot = q["toks"][0], int(q["toks"][1]), int(q["toks"][2]), int(q["toks"][3])
+                if lk != locked or am + lk != tot or tot != bank.get(dn, 0) or lk < 0:
+                    yield {"oracle": "locked+unlocked=total", "signature": "entsupply", "detail": "QUERY %s: %s" % (q["n"], q["toks"])}
+            if q["kind"] == "ent.totalsupply":
+                r = kvtoks(q["toks"])
+                cs = [] if r.get("coins", "-") == "-" else [coin(x) for x in r["coins"].split(",")]
+                dens = [c[1] for c in cs]
+                if len(set(dens)) != len(dens) or any(c[0] < 0 for c in cs):
+                    yield {"oracle": "total-supply-page", "signature": "duplicate-or-negative", "detail": "QUERY %s: %s" % (q["n"], r.get("coins"))}
+                for (a, den) in cs:
+                    want = bank.get(den, 0) - (locked if den == dn and locked is not None else 0)
+                    if a != want:
+                        yield {"oracle": "total-supply-page", "signature": "native" if den == dn else "other", "detail": "QUERY %s: %s listed %d, want %d" % (q["n"], den, a, want)}
+
+
 def o_invariants(tr):
     for l in tr.soft:
         if l.startswith("x inv") and l.endswith("broken"):
@@ -648,7 +765,7 @@ def o_invariants(tr):
 ORACLES = {
     "C02": [o_c02, o_invariants], "C03": [o_c03], "C04": [o_c04, o_invariants], "C05": [o_c05, o_c05_granter, o_c05_amount], "C07": [o_c07], "C08": [o_c08],
     "C09": [o_c09], "C10": [o_c10, o_invariants], "C11": [o_c11], "C12": [o_c12], "C14": [o_c14], "C16": [o_c16],
-    "C13": [o_c13], "C06": [o_c06], "C01": [],
+    "C13": [o_c13], "C17": [o_c17], "C20": [o_c20], "C06": [o_c06], "C01": [],
 }
 
 
